@@ -48,6 +48,7 @@ def appNotFound := pc 45
 def overService := pc 71
 def chainsOverLimit := pc 91
 def invalidSession := pc 14
+def invalidAppPubKey := pc 61
 def expiredProofsSubmission := pc 69
 def claimNotFound := pc 65
 def invalidMerkleVerify := pc 66
@@ -159,6 +160,11 @@ structure ClaimEnv where
   chainsOverLimit : Bool
   /-- an error of `NewSession` or of `Session.Validate` before its last check (membership). -/
   sessionPre : Option Code
+  /-- the session header names the application (and the chain) in canonical spelling: its
+  `ApplicationPubKey` TEXT equals `app.GetPublicKey().RawString()` (lower-case hex).  The claim store
+  key, the evidence key and the session key are derived from the header text, so another spelling of
+  the same key would be a second, independent claim for the same session (`Session.Validate`). -/
+  headerCanonical : Bool := true
   /-- `session.SessionNodes.Contains(FromAddress)`. -/
   inSession : Bool
   /-- `ClaimSubmissionWindow(ctx)` and `BlocksPerSession(ctx)` (current context, `ClaimIsMature`). -/
@@ -181,7 +187,8 @@ def validateClaim (h : Int) (m : MsgClaim) (e : ClaimEnv) : Option Code :=
   else match e.sessionPre with
     | some c => some c
     | none =>
-      if !e.inSession then some Code.invalidSession
+      if !e.headerCanonical then some Code.invalidAppPubKey
+      else if !e.inSession then some Code.invalidSession
       else if h > e.curW * e.curB + m.key.sbh then some Code.expiredProofsSubmission
       else none
 
@@ -392,7 +399,7 @@ def claimAcceptable (h : Int) (m : MsgClaim) (e : ClaimEnv) : Bool :=
   && decide (e.minProofs ≤ m.total)
   && e.chainSupported && e.nodeFound && e.appFound
   && decide (m.total ≤ e.maxRelays)                  -- within the application's allowance
-  && !e.chainsOverLimit && e.sessionPre.isNone && e.inSession
+  && !e.chainsOverLimit && e.sessionPre.isNone && e.headerCanonical && e.inSession
   && decide (h ≤ e.curW * e.curB + m.key.sbh)        -- not mature yet
 
 /-- Everything the property demands of a proof that is paid, given the stored claim. -/
